@@ -24,7 +24,7 @@ import (
 
 func TestC17(t *testing.T) {
 	R := ev.New("C17")
-	R.Rule = "plot command vs library: n<=4 (thorough 5) results with sequence numbers 0..n-1, every arrival order x every OK/ERROR mask x {gob,json,csv}, two thresholds; distinct+non-trivial = (n, order, mask, encoding) where the file order is not the sequence order or the mask mixes OK and ERROR"
+	R.Rule = "plot command vs library: n<=4 (thorough 5) results with sequence numbers 0..n-1, every arrival order x every OK/ERROR mask x {gob,json,csv} x threshold {0,1,2,3}; distinct+non-trivial = (n, order, mask, encoding) where the file order is not the sequence order or the mask mixes OK and ERROR"
 	R.Assume("differential oracle: the HTML written by plotRun must equal byte for byte the HTML the library writes for the same results and options; the library is checked against the reference by part a")
 	dir := t.TempDir()
 	t0 := time.Date(2024, 3, 1, 12, 0, 0, 0, time.UTC)
@@ -51,7 +51,7 @@ func TestC17(t *testing.T) {
 				rs[i].Code, rs[i].Error, rs[i].Body, rs[i].BytesIn = 0, "dial tcp: connection refused", nil, 0
 			}
 		}
-		for _, th := range []int{0, 3} {
+		for _, th := range []int{0, 1, 2, 3} {
 			lib := plot.New(plot.Title("t"), plot.Downsample(th), plot.Label(plot.ErrorLabeler))
 			var libErr error
 			for _, i := range j.order {
